@@ -259,6 +259,10 @@ class QMI_Context:
         self.name = name
         self._unique_counters: dict[str, int] = {}
         self._unique_counters_lock = threading.Lock()
+
+        # Random per-instance component of generated lock tokens: contexts in different processes
+        # may share a name (clients), their tokens must still differ.
+        self._token_nonce = os.urandom(8).hex()
         self._rpc_object_map: dict[str, RpcObjectManager | None] = {}
         self._rpc_object_map_lock = threading.Lock()
 
@@ -762,7 +766,7 @@ class QMI_Context:
         with self._unique_counters_lock:
             nr = self._unique_counters.get(prefix, 0) + 1
             self._unique_counters[prefix] = nr
-        return QMI_LockTokenDescriptor(self.name, prefix + str(nr))
+        return QMI_LockTokenDescriptor(self.name, "{}{}_{}".format(prefix, self._token_nonce, nr))
 
     def make_rpc_object(
         self,
